@@ -419,3 +419,47 @@ pub fn libbuild(args: &[String]) -> i32 {
     println!("{}", serde_json::to_string(&out).unwrap());
     0
 }
+
+/// `vh c05-libdump <jobs.json> <out.ndjson>`: what the library reads back from every lib_system.dic, loaded the way `sudachi dump` loads
+/// it (DictionaryLoader::read_any_dictionary + to_loaded): POS list, matrix size and every cell, parameters and word info of every word
+pub fn libdump(args: &[String]) -> i32 {
+    quiet_panics();
+    let jobs: Vec<Value> = serde_json::from_str(&std::fs::read_to_string(&args[0]).unwrap()).unwrap();
+    let mut lines = Vec::new();
+    for j in jobs.iter() {
+        let p = std::path::PathBuf::from(j["dir"].as_str().unwrap()).join("lib_system.dic");
+        let Ok(bytes) = std::fs::read(&p) else { continue };
+        let r = catch(std::panic::AssertUnwindSafe(|| -> Result<Value, String> {
+            let loader = unsafe { sudachi::dic::DictionaryLoader::read_any_dictionary(&bytes) }.map_err(|e| format!("{:?}", e))?;
+            let dict = loader.to_loaded().ok_or("no grammar")?;
+            let g = dict.grammar();
+            let pos: Vec<Vec<Vec<u32>>> = g.pos_list.iter().map(|p| p.iter().map(|c| cps(c)).collect()).collect();
+            let conn = g.conn_matrix();
+            let (nl, nr) = (conn.num_left(), conn.num_right());
+            let mut cells = Vec::new();
+            for l in 0..nl {
+                for r in 0..nr {
+                    cells.push(conn.cost(l as u16, r as u16) as i64);
+                }
+            }
+            let lex = dict.lexicon();
+            let mut words = Vec::new();
+            for i in 0..lex.size() {
+                let wid = WordId::checked(0, i).map_err(|e| format!("{:?}", e))?;
+                let (l, r, c) = lex.get_word_param(wid);
+                let wi = lex.get_word_info(wid).map_err(|e| format!("{:?}", e))?;
+                let w = |v: &[WordId]| v.iter().map(|x| vec![x.dic() as i64, x.word() as i64]).collect::<Vec<_>>();
+                words.push(json!({"l": l, "r": r, "c": c, "surface": cps(wi.surface()), "hwl": wi.head_word_length(), "norm": cps(wi.normalized_form()),
+                    "dfw": wi.dictionary_form_word_id(), "reading": cps(wi.reading_form()), "a": w(wi.a_unit_split()), "b": w(wi.b_unit_split()),
+                    "ws": w(wi.word_structure()), "syn": wi.synonym_group_ids()}));
+            }
+            Ok(json!({"ev": "libdump", "run": j["job"], "job": j["job"], "pos": pos, "nl": nl, "nr": nr, "conn": cells, "words": words}))
+        }));
+        if let Ok(Ok(v)) = r {
+            lines.push(serde_json::to_string(&v).unwrap());
+        }
+    }
+    std::fs::write(&args[1], lines.join("\n") + "\n").unwrap();
+    println!("{}", json!({"dumped": lines.len()}));
+    0
+}
